@@ -12,7 +12,7 @@ reader ids that detach, `-` for none) and answers, per op, `<ret>:<npages>:<bug>
 joined by `;` (ret = page id returned by rp / sl, `n` otherwise).
 Op syntax (page arguments are `@k` = the page returned by op number k, 0-based):
   rp:<r>:<within>:<iters>   sk:<r>:<same>   cl:<r>   rt:@k   rl:@k   sl:@k   pv:@k
-  vr:<r>:<rounds>   vs:<r>:<same>   vc:<r>   rg:<r>:<rounds>   cn:<k>   ch:<picks>
+  vr:<r>:<rounds>   vs:<r>:<same>   vx:<r>:<same> (Reset)   vc:<r>   rg:<r>:<rounds>   cn:<k>   ch:<picks>
   iters  = iter;iter;...  | -        iter  = <transient picks | ->/<page | ->/<r|s|l>
   page   = <ptr 0|1>,<values pick>,<other pick>,...
   rounds = round+round+... | -       round = <within>~<iters>~<yields>
@@ -124,6 +124,8 @@ def op? (rets : List (Option PageId)) (tok : String) : Option Op :=
     | some r, some rs => some (.readGo r rs) | _, _ => none
   | ["vs", r, same] => match parseNat? r, bool? same with
     | some r, some b => some (.vrSeek r b) | _, _ => none
+  | ["vx", r, same] => match parseNat? r, bool? same with
+    | some r, some b => some (.vrReset r b) | _, _ => none
   | ["vc", r] => (parseNat? r).map .vrClose
   | ["cn", k] => (parseNat? k).map .clone
   | ["ch", ps] => (picks? ps).map .churn
